@@ -9,9 +9,9 @@ import sys
 import gg
 import lib
 
-DIRNAMES = ["d", "sub", ".hid", "x.y", "a-b", "ż", "A b", "d1", "e(1)", "plus+"]
-FILENAMES = ["f.txt", "g.TXT", ".dot", "h.log", "ż.bin", "a b.txt", "k", "m.txt", "n.dat"]
-SIZES = [0, 1, 50, 3000]
+DIRNAMES = ["d", "sub", ".hid", "x.y", "a-b", "ż", "A b", "d1", "e(1)", "plus+", "..dd"]        # ..dd: two dots are hidden as well
+FILENAMES = ["f.txt", "g.TXT", ".dot", "h.log", "ż.bin", "a b.txt", "k", "m.txt", "n.dat", "..two"]
+SIZES = [0, 1, 2, 50, 100, 3000]                 # 2 and 100: exactly the --min / --max values used below (both bounds are inclusive)
 
 
 def glob_re(g, ci=False, literal_prefix=""):
@@ -234,7 +234,8 @@ def gen_opts0(rng, tree):
     if r < 0.25:
         o["names"] = [rng.choice(["*.txt", "f*", "?.*", "*.TXT"])]
     elif r < 0.45:
-        o["paths"] = [rng.choice(["**/sub/**", "**/d*/**", "T0/**", "T*/d/*", tree.base + "/T1/**", "**/x.y/*", "**/ż/**", "**/a-b/**", "T0/d1/**", "**/e(1)/**", "**/plus+/*"])]
+        o["paths"] = [rng.choice(["**/sub/**", "**/d*/**", "T0/**", "T*/d/*", tree.base + "/T1/**", "**/x.y/*", "**/ż/**", "**/a-b/**", "T0/d1/**", "**/e(1)/**", "**/plus+/*",
+                                   "t1/**", "T1/**/*.txt", "T0/**/G.txt"])]        # the last three differ from existing names in letter case only
         if o["ci"] and rng.random() < 0.7:
             o["paths"] = [rng.choice(["t0/**", "**/SUB/**", "T0/D1/**", "**/*.txt", tree.base + "/t1/**"])]      # patterns that need the case folding
         if rng.random() < 0.3:
